@@ -114,8 +114,10 @@ def header_cover(fn):
             return None
         did = v["did"]
         cond = strip(cond)
-        if cond is None or cond["k"] != "BinaryOperator" or cond["op"] not in ("<", "<="):
+        if cond is None or cond["k"] != "BinaryOperator" or cond["op"] not in ("<", "<=", ">", ">="):
             return None
+        if cond["op"] in (">", ">="):       # bound > i  ==  i < bound
+            cond = dict(cond, op={">": "<", ">=": "<="}[cond["op"]], c=[cond["c"][1], cond["c"][0]])
         l = strip(cond["c"][0])
         if l is None or l.get("did") != did:
             return None
